@@ -2,3 +2,4 @@ import DM.Props.C12
 import DM.Props.C06
 import DM.Props.C07
 import DM.Props.C08
+import DM.Props.C17
